@@ -21,7 +21,7 @@ pub fn real_namespace() -> Option<&'static Namespace<'static>> {
     *NS.get_or_init(|| {
         let text = std::fs::read_to_string("/repo/tests/defs/defs.zinc").ok()?;
         match libhaystack::encoding::zinc::decode::from_str(&text) {
-            Ok(Value::Grid(g)) => Some(&*Box::leak(Box::new(Namespace::make(g)))),
+            Ok(Value::Grid(g)) => Some(crate::mon_c13::leak_ns(g).get()),
             _ => None,
         }
     })
